@@ -200,8 +200,13 @@ def generate(rng, index, tier):
                 calls[-1] = probe
             else:
                 calls.append(probe)
-    return {'seed': rng.getrandbits(32), 'net': net, 'users': users, 'calls': calls, 'scripts': scripts,
+    plan = {'seed': rng.getrandbits(32), 'net': net, 'users': users, 'calls': calls, 'scripts': scripts,
             'loss': loss, 'horizon': HORIZON}
+    if rng.random() < 0.25:
+        # peer connections that come and go meanwhile (their state changes travel over the same event bus)
+        plan['peer_conns'] = [{'at': round(rng.uniform(0.0, max(now, 1.0) + 5.0), 2), 'hold': rng.choice([0.0, 0.5, 3.0])}
+                              for _ in range(rng.randint(1, 3))]
+    return plan
 
 
 def _plan(calls, scripts=None, loss=None, net=None, users=('u1',)):
@@ -233,6 +238,10 @@ def corpus(tier):
     out.append(_plan([_c('u1', U, R, 0.0), _c('u1', T, R, 1.0), _c('u1', T, R, 2.0), _c('u1', U, F, 3.0)]))
     out.append(_plan([_c('u1', T, R, 0.0), _c('u1', U, R, 0.0), _c('u1', T, F, 0.0), _c('u2', T, X, 0.0)],
                      users=USERS))
+    # peer connections come and go while users are tracked, confirmed and waiting for a retry
+    out.append(dict(_plan([_c('u1', T, R, 0.0), _c('u1', U, R, 8.0)]), peer_conns=[{'at': 2.0, 'hold': 0.5}]))
+    out.append(dict(_plan([_c('u1', T, R, 0.0), _c('u1', T, F, 5.0)], {'u1': ['silent']}),
+                    peer_conns=[{'at': 3.0, 'hold': 0.0}, {'at': 6.0, 'hold': 3.0}]))
     out.append(_plan([_c('u1', T, R, 0.0)], {'u1': ['silent']}))
     out.append(_plan([_c('u1', T, R, 0.0)], {'u1': ['notexists']}))
     out.append(_plan([_c('u1', T, R, 0.0)], {'u1': ['silent', 'notexists', 'silent', 'exists']}))
@@ -446,6 +455,8 @@ def _run(world: World, plan):
         server.add_user_script[u] = list(scripts[u])
     alice = world.add_client('alice')
     client = alice.client
+    bob = world.add_peer('bob') if plan.get('peer_conns') else None
+    peer_tasks = []
     calls = [c for c in plan.get('calls', []) if c.get('user') in users]
     loss_plan = plan.get('loss')
     horizon = float(plan.get('horizon', HORIZON))
@@ -682,6 +693,14 @@ def _run(world: World, plan):
                 register(loss_plan['on'], do_loss)
             else:
                 timed.append((float(loss_plan.get('at', 0.0)), 1, 0, None))
+        for i, pc in enumerate(plan.get('peer_conns') or []):
+            async def come_and_go(i=i, pc=pc):
+                await sleep_until(t0[0] + float(pc.get('at', 0.0)))
+                link = await bob.connect_direct(alice.host.ip, 60000, 'P', ticket=9000 + i)
+                world.net.fired['peer_connection_opened_and_closed'] += 1
+                await asyncio.sleep(float(pc.get('hold', 0.0)))
+                link.close()
+            peer_tasks.append(bob.spawn(come_and_go()))
         timed.sort(key=lambda x: x[:3])
         for (at, _, _, c) in timed:
             # a call needs time to take effect before the run is judged (attempt timeout 10 s + slack)
